@@ -307,12 +307,9 @@ theorem bad_magic_rejected (ko : KeyOps) (sha : Bytes → Bytes) (c : Nat) (b : 
     · simp at hm; simp [hm.1.symm ▸ h]
     · simp at hm
 
--- GOAL (not proved): ser_parse — `Psbt.parse (Psbt.ser p) = some p` for well-formed `p` (checked by correspondence
---   `psbt.roundtrip` and by the harness predicate "serialise-then-parse is the identity").
--- GOAL (not proved): v2_tx_eq_bip370 — for version 2 the reconstructed transaction equals the one BIP370 assigns to
---   the raw maps (checked by the harness against an independently built transaction).
--- GOAL (not proved): tx_in_v2_rejected / missing_tx_v0_rejected as standalone statements (decided inside
---   `Psbt.parse`; exercised by the corruption stream).
+-- The serialise-then-parse direction (`ser_parse`, `parse_wf`), the PSBTv2 transaction versus BIP370
+-- (`v2_tx_eq_bip370_partial`) and the rejection rules (`tx_in_v2_rejected`, `missing_tx_v0_rejected`, duplicate keys,
+-- count mismatch, PSBTv2 scope fields in version 0) are proved in Props/C04X.lean.
 
 /-! ### non-vacuity -/
 
